@@ -10,19 +10,19 @@ namespace XotModel
 
 theorem declsOf_cons_decl {a : NSAttr} {p : Str} (h : a.declares = some p) (as : List NSAttr) :
     declsOf (a :: as) = (p, valueOf true a.pieces) :: declsOf as := by
-  simp [declsOf, List.filterMap_cons, h]
+  simp [declsOf, h]
 
 theorem declsOf_cons_ord {a : NSAttr} (h : a.declares = none) (as : List NSAttr) :
     declsOf (a :: as) = declsOf as := by
-  simp [declsOf, List.filterMap_cons, h]
+  simp [declsOf, h]
 
 theorem ordinary_cons_decl {a : NSAttr} {p : Str} (h : a.declares = some p) (as : List NSAttr) :
     ordinary (a :: as) = ordinary as := by
-  simp [ordinary, List.filter_cons, NSAttr.isDecl, h]
+  simp [ordinary, NSAttr.isDecl, h]
 
 theorem ordinary_cons_ord {a : NSAttr} (h : a.declares = none) (as : List NSAttr) :
     ordinary (a :: as) = a :: ordinary as := by
-  simp [ordinary, List.filter_cons, NSAttr.isDecl, h]
+  simp [ordinary, NSAttr.isDecl, h]
 
 theorem nodup_of_map {α β : Type} (f : α → β) : ∀ {l : List α}, (l.map f).Nodup → l.Nodup
   | [], _ => List.nodup_nil
@@ -113,7 +113,7 @@ theorem step_decl {b : Builder} {eb : ElementBuilder} (heb : b.eb = some eb) (a 
       have h2' : (a.pfx.text.isEmpty && a.loc.text == ['x', 'm', 'l', 'n', 's']) = true := h2
       simp only [h1', Bool.false_eq_true, if_false, h2', if_true]
       exact hpref _
-    · simp only [h2, if_false] at hd
+    · simp only [h2] at hd
       cases hd
 
 /-- An ordinary attribute item: decoded, normalised, collected. -/
@@ -306,7 +306,7 @@ theorem addAttributes_ns (frames' : List (List (Str × Str))) (node : Path) :
     | true =>
       have hids : attrIds (((u, a.loc.text), a.value) :: rest.map (NSAttr.denote (flatScope frames'))) =
           a.value :: attrIds (rest.map (NSAttr.denote (flatScope frames'))) := by
-        simp [attrIds, List.filter_cons, hid]
+        simp [attrIds, hid]
       rw [hids] at hidn hidd ⊢
       obtain ⟨hvnew, hidn'⟩ := List.nodup_cons.mp hidn
       have hnc : st.seenIds.contains a.value = false := by
@@ -336,7 +336,7 @@ theorem addAttributes_ns (frames' : List (List (Str × Str))) (node : Path) :
     | false =>
       have hids : attrIds (((u, a.loc.text), a.value) :: rest.map (NSAttr.denote (flatScope frames'))) =
           attrIds (rest.map (NSAttr.denote (flatScope frames'))) := by
-        simp [attrIds, List.filter_cons, hid]
+        simp [attrIds, hid]
       rw [hids] at hidn hidd ⊢
       simp only [Bool.false_and, Bool.false_eq_true, if_false]
       obtain ⟨st', hr, he, hk, hs⟩ := ih
